@@ -178,18 +178,25 @@ func concurrency(shardI, shardN int, thorough bool, deadline time.Time, wo *work
 	}
 	specs := []spec{{2, []vsched.Bound{{0, 0}, {1, 0}}}}
 	if thorough {
-		specs = []spec{{3, []vsched.Bound{{0, 0}, {1, 0}}}, {2, []vsched.Bound{{0, 0}, {1, 0}, {2, 0}}}}
+		specs = append(specs, spec{3, []vsched.Bound{{0, 0}, {1, 0}}})
 	}
 	var out []concResult
 	// two configurations: stale window 60 s, and unbounded window with a size limit. The upstream answers without
 	// delay in these scenarios, so the refresh thread is an ordinary runnable thread and every interleaving of it
 	// with the clients is a matter of preemptions only (no timer deviations needed).
-	for _, cfg := range []Cfg{{Opt: true, Ttl: 0, Max: 2}, {Opt: true, Ttl: 60, Max: 0}} {
-		if !staleServedAtAll(cfg) {
-			out = append(out, concResult{Cfg: cfg.String(), Skipped: "expired answers are not served at once in this configuration (reported by the history search)"})
-			continue
+	cfgs := []Cfg{{Opt: true, Ttl: 0, Max: 2}, {Opt: true, Ttl: 60, Max: 0}}
+	served := map[Cfg]bool{}
+	for _, cfg := range cfgs {
+		served[cfg] = staleServedAtAll(cfg)
+		if !served[cfg] {
+			out = append(out, concResult{Cfg: cfg.String(), Exhaustive: true, Skipped: "expired answers are not served at once in this configuration (reported by the history search)"})
 		}
-		for _, sp := range specs {
+	}
+	for _, sp := range specs {
+		for _, cfg := range cfgs {
+			if !served[cfg] {
+				continue
+			}
 			sc := concScenario(cfg, sp.clients)
 			e := &vsched.Explorer{Sc: sc, Bounds: sp.bounds, Deadline: deadline, ShardI: shardI, ShardN: shardN}
 			st := e.Explore()
